@@ -281,12 +281,12 @@ def dispatchC16 : Dispatch := fun op args =>
   | "c16.b.from_be_hex", [bp, t] =>
     match bp.toNat?, tokToBytes? t with
     | some bp, some t =>
-      let l1 := match boxedFromBeHex t bp with
+      let l1 := match boxedFromBeHexApi t bp with
         | none => "panic"
         | some (l, ok) => if ok then limbsHexLen l else "none"
       let l0 := if t.length = 16 * (bp / 64) then
           (match hexDigits? t with
-           | some ds => s!"{bp / 64}:{natToHex (beValBase 16 ds)}"
+           | some ds => s!"{max 1 (bp / 64)}:{natToHex (beValBase 16 ds)}"
            | none => "none")
         else "panic"
       both l1 l0
